@@ -5,6 +5,18 @@ ROOT = os.path.dirname(os.path.abspath(__file__))
 props = [json.loads(l) for l in open(os.path.join(ROOT, "properties.jsonl"))]
 
 CHECKS = {
+ "C16": dict(category="proof",
+   text="Static half decided by proof: a translator regenerates, from the current interfaces/c sources and core headers, the tables of every field copied by piqp_update_result / piqp_set_default_settings / piqp_update_settings (dense and sparse branch) and the status enum; 13 Lean theorems (each `by decide` over the complete table) state that every core field is wired to the like-named C field exactly once and that status values agree. A Python recomputation of every obligation supplies the concrete mismatching pair as replay when a theorem fails. The dynamic half (bitwise C-vs-C++ differential) is reported in the evidence when built.",
+   design_ref="§6 C16", technique="Lean 4 `decide` over translator-generated complete field tables (+ differential C/C++ runs)",
+   note="translator (regex over the binding sources, fails closed) is trusted; Lean kernel; no axioms beyond the standard three"),
+ "C17": dict(category="proof",
+   text="For every Settings/Info/Result field and Status enumerator x every binding source (C, pybind11, .pyi, mex, oct, docs) the translator regenerates complete tables from the current tree and 72 Lean theorems, each `by decide` over the whole finite table, state completeness, like-named wiring in both directions, type agreement, documented defaults and status codes. The quantifier is a finite table, enumerated completely, so the theorems decide the property for the tree at hand. The mex path is cross-checked dynamically by compiling the real piqp_mex.cpp against a mock MEX runtime.",
+   design_ref="§6 C17", technique="Lean 4 `decide` over translator-generated complete field tables, regenerated every run",
+   note="translator (fails closed on any unparsed statement in a known block) is trusted and cross-checked by the mock-MEX round trip; Lean kernel"),
+ "C20": dict(category="proof",
+   text="Lean theorems load_save_dense / load_save_sparse (any prior store content, all n>=1, p,m>=0, empty columns, explicit zeros, opaque 64-bit values) over a model of io_utils/eigen_matio on an abstract name->variable MAT store, plus field-list agreement and reader-guard theorems; the model is run against the real save_*/load_* through libmatio on all shape classes x special bit patterns and random models (bitwise comparison, raw matio scan of the file), and the round trip is checked directly on the implementation.",
+   design_ref="§6 C20", technique="Lean 4 proof (round trip over abstract MAT store) + bitwise differential correspondence through libmatio",
+   note="libmatio trusted as a name->variable store; values opaque bit patterns; Lean kernel"),
  "C13": dict(category="proof",
    text="Lean theorems: for each of the five back ends the step returned by the model's KKT solve satisfies the full un-eliminated regularised Newton system whenever the inner factorisation solves the reduced system; cache refreshes equal a fresh build when the option mask covers what changed; refinement never increases the residual. The model (executed at exact rationals) is compared on every run with the real dense::KKT<Q>/sparse::KKT<Q,int,Mode> instantiated with an exact scalar, on random and enumerated op sequences, as exact strings; the property is also evaluated directly on the implementation's exact outputs.",
    design_ref="§6 C13", technique="Lean 4 proof (elimination theorems over an ordered field) + exact-rational differential correspondence with the real templates",
@@ -38,7 +50,7 @@ def main():
         "hooks": {
             "guard": "PIQP_VERIF",
             "enable": "harnesses under /verif/harness are compiled against /repo/include with -DPIQP_VERIF",
-            "baseline_off_cmd": "cmake --build /repo/_build -j16 && ctest --test-dir /repo/_build -j8 --timeout 900",
+            "baseline_off_cmd": "cmake --build /repo/_build -j16 && ctest --test-dir /repo/_build/tests -j8 --timeout 900; ctest --test-dir /repo/_build/interfaces/c/tests -j8 --timeout 900",
             "source_commits": [],
             "add_only": True,
         },
